@@ -373,6 +373,11 @@ var GoTypes = []string{"NRGBA", "RGBA", "NRGBA64", "RGBA64", "Gray", "Gray16", "
 // hold the data; the caller always compares against ToNRGBA of the *result*).
 func AsType(r *rand.Rand, m *image.NRGBA, typ string) image.Image {
 	b := m.Bounds()
+	if (typ == "YCbCr" || typ == "NYCbCrA") && (b.Min.X < 0 || b.Min.Y < 0) {
+		// the standard library's subsampled plane sizing is wrong for negative origins
+		m = Shift(m, 2-b.Min.X, 2-b.Min.Y)
+		b = m.Bounds()
+	}
 	switch typ {
 	case "NRGBA":
 		return m
@@ -531,6 +536,28 @@ func Place(r *rand.Rand, m *image.NRGBA, how string, sentinel byte) image.Image 
 		d := image.NewNRGBA(image.Rect(0, 0, w, h))
 		cp(d, 0, 0)
 		return Wrapper{d}
+	}
+	return m
+}
+
+// Shift returns a view of m whose rectangle is translated by (dx,dy): same pixels, non-zero origin.
+func Shift(m *image.NRGBA, dx, dy int) *image.NRGBA {
+	return &image.NRGBA{Pix: m.Pix, Stride: m.Stride, Rect: m.Rect.Add(image.Pt(dx, dy))}
+}
+
+// FarRepeat builds a w*h picture of palette noise in which a run of n pixels is repeated exactly
+// dist pixels later (raster order): a backward reference at a chosen, possibly very large distance.
+func FarRepeat(r *rand.Rand, w, h, dist, n int) *image.NRGBA {
+	m := Gen(r, "pal256", "opaque", w, h)
+	total := w * h
+	if dist+n >= total {
+		return m
+	}
+	start := r.Intn(total - dist - n)
+	for i := 0; i < n; i++ {
+		sx, sy := (start+i)%w, (start+i)/w
+		dx, dy := (start+dist+i)%w, (start+dist+i)/w
+		copy(m.Pix[dy*m.Stride+dx*4:dy*m.Stride+dx*4+4], m.Pix[sy*m.Stride+sx*4:sy*m.Stride+sx*4+4])
 	}
 	return m
 }
